@@ -83,7 +83,7 @@ void Avtp_Vss_Pad(Avtp_Vss_t* vss_pdu, uint16_t vss_length) {
     // Check if padding is required
     padSize = (AVTP_QUADLET_SIZE - (vss_length % AVTP_QUADLET_SIZE)) % AVTP_QUADLET_SIZE;
     if (vss_length % AVTP_QUADLET_SIZE) {
-        memset(vss_pdu + vss_length, 0, padSize);
+        memset((uint8_t*)vss_pdu + vss_length, 0, padSize);
     }
 
     // Set the length and padding fields
